@@ -465,51 +465,131 @@ def rule_PI(run: Run) -> RuleResult:
         has_rest = {True: False, False: True}.get(cond_pol(p.conds, "cmp:Is(attr:rest(self),Const(None))"), cond_pol(p.conds, "attr:rest(self)"))
         forms.append(f"rest {'present' if has_rest else 'absent' if has_rest is False else '?'}: {k}")
         # the steps of rest first (when there is one), then the tail
-        want = "Coll(oneof(elem(attr:rest(self)),attr:tail(self)))" if has_rest else "Coll(attr:tail(self))"
-        if has_rest is None or k != want:
+        want = (("Coll(oneof(elem(attr:rest(self)),attr:tail(self)))", "Seq[star(attr:rest(self)),attr:tail(self)]") if has_rest
+                else ("Coll(attr:tail(self))", "Seq[attr:tail(self)]"))
+        if has_rest is None or k not in want:
             ok_it = False
     res.add("labrea.pipeline.Pipeline.__iter__:rest before tail", ok_it, f, it.lineno, f"yields {forms}", nec)
     ad = pl.methods.get("__add__")
     if ad is None:
         raise AnalysisError("Pipeline.__add__ not found")
-    ps = [p for p in analyse_method(Ctx(repo), pl, "__add__") if p.status == "ret"]
-    res.count("paths", len(ps))
-    seen = set()
+    # ``self + other`` is decided per shape of the right operand: a step, a plain callable, the empty pipeline and
+    # pipelines of 1, 2 and 3 steps.  A shape is a set of facts about ``other`` and its chain of ``.rest`` nodes
+    # (which the interpreter takes as already established on the path); under them every test of __add__ is
+    # decided, loops run to their end, and the returned term must flatten to the steps of self followed by the
+    # steps of other in application order.  ``a + b`` inside the result flattens by the induction hypothesis
+    # (b is a single step or a proper sub-chain of other).
+    from .interp import Frame, Path as IPath, SELF
+    from .terms import Term
+    PS, PL = "class<labrea.pipeline.PipelineStep>", "class<labrea.pipeline.Pipeline>"
+    opar = astu.param_names(ad)[0]
+
+    def chain(n):
+        return [opar] + [("attr:rest(" * k) + opar + (")" * k) for k in range(1, n)]
+
+    def facts(kind, n=0):
+        out = []
+        if kind == "step":
+            out.append((f"call:isinstance({opar},{PS})", True))
+        elif kind == "callable":
+            out += [(f"call:isinstance({opar},{PS})", False), (f"call:isinstance({opar},{PL})", False)]
+        elif kind == "empty":
+            out += [(f"call:isinstance({opar},{PS})", False), (f"call:isinstance({opar},{PL})", True), (f"attr:empty({opar})", True)]
+        else:
+            nodes = chain(n)
+            for k, o in enumerate(nodes):
+                out += [(f"call:isinstance({o},{PS})", False), (f"call:isinstance({o},{PL})", True), (f"attr:empty({o})", False),
+                        (f"cmp:Is(attr:rest({o}),Const(None))", k == n - 1), (f"attr:rest({o})", k != n - 1)]
+        return out
+
+    def expected(kind, n=0):
+        if kind == "step":
+            return ["SELF", opar]
+        if kind == "callable":
+            return ["SELF", f"step({opar})"]
+        if kind == "empty":
+            return ["SELF"]
+        return ["SELF"] + [f"attr:tail({o})" for o in reversed(chain(n))]
+
+    def flatten(t, sub):
+        """Steps of a pipeline term, or None when it is not understood."""
+        if t is None:
+            return None
+        k = t.key()
+        if k == SELF.key():
+            return ["SELF"]
+        if isinstance(t, Sym) and t.head == "call:typing.cast" and len(t.args) == 2:
+            return flatten(t.args[1], sub)
+        if isinstance(t, New) and t.cls.name == "Pipeline":
+            rest, tail = t.attrs.get("rest"), t.attrs.get("tail")
+            if isinstance(rest, Sym) and rest.head == "oneof":
+                cands = [a for a in rest.args if not (isinstance(a, Const) and a.v is None)]
+                rest = cands[0] if len(cands) == 1 else None
+            head = [] if isinstance(rest, Const) and rest.v is None else flatten(rest, sub)
+            one = step_of(tail)
+            return None if head is None or one is None else head + [one]
+        if isinstance(t, Sym) and t.head == "binop:Add" and len(t.args) == 2:
+            a = flatten(t.args[0], sub)
+            bk = t.args[1].key()
+            if bk in sub:                       # a proper sub-chain of other: induction hypothesis
+                b = sub[bk]
+            else:
+                one = step_of(t.args[1])
+                b = None if one is None else [one]
+            return None if a is None or b is None else a + b
+        return None
+
+    def step_of(t):
+        if t is None:
+            return None
+        k = t.key()
+        if k == opar or (k.startswith("attr:tail(") and k.endswith(")")):
+            return k
+        if isinstance(t, New) and t.cls.name == "PipelineStep":
+            s_ = t.attrs.get("step")
+            if s_ is not None and (s_.key() == opar or (isinstance(s_, New) and s_.attrs.get("value") is not None and s_.attrs["value"].key() == opar)):
+                return f"step({opar})"
+        return None
+
+    shapes = [("step", 0), ("callable", 0), ("empty", 0), ("chain", 1), ("chain", 2), ("chain", 3)]
     ok = True
     d = ""
-    for p in ps:
-        from .facts import cond_pol
-        conds = {c[0]: c[1] for c in p.conds}
-        r = p.ret
-        rk = r.key()
-        step = cond_pol(p.conds, "call:isinstance(other,class<labrea.pipeline.PipelineStep>)")
-        pipe = cond_pol(p.conds, "call:isinstance(other,class<labrea.pipeline.Pipeline>)")
-        conds = dict(conds)
-        conds["other.empty"] = cond_pol(p.conds, "attr:empty(other)")
-        conds["other.rest is None"] = cond_pol(p.conds, "cmp:Is(attr:rest(other),Const(None))")
-        if step:
-            want = isinstance(r, New) and r.cls.name == "Pipeline" and r.attrs.get("tail") == Sym("other") and r.attrs.get("rest") == Child("<self>")
-            seen.add("step")
-        elif pipe and conds.get("other.empty"):
-            want = rk == "call:typing.cast(class<labrea.pipeline.Pipeline>,Child(<self>))" or rk == "Child(<self>)"
-            seen.add("empty")
-        elif pipe and conds.get("other.rest is None"):
-            want = isinstance(r, New) and r.cls.name == "Pipeline" and r.attrs.get("tail").key() == "attr:tail(other)" and r.attrs.get("rest") == Child("<self>")
-            seen.add("single")
-        elif pipe:
-            want = rk == "binop:Add(binop:Add(Child(<self>),attr:rest(other)),attr:tail(other))"
-            seen.add("many")
-        else:
-            t = r.attrs.get("tail") if isinstance(r, New) else None
-            want = isinstance(r, New) and r.cls.name == "Pipeline" and r.attrs.get("rest") == Child("<self>") and isinstance(t, New) and t.cls.name == "PipelineStep" \
-                and (t.attrs.get("step") == Sym("other") or (isinstance(t.attrs.get("step"), New) and t.attrs["step"].attrs.get("value") == Sym("other")))
-            seen.add("callable")
-        if not want:
+    n_paths = 0
+    for kind, n in shapes:
+        ctx = Ctx(repo)
+        ctx.root_cls = pl
+        fr = Frame(ctx, pl.module, pl, SELF, None, 0, (), "Pipeline.__add__")
+        p0 = IPath()
+        for key, pol in facts(kind, n):
+            p0.conds.append((f"<shape {kind}{n or ''}>", pol, key))
+        names = [a.arg for a in ad.args.posonlyargs + ad.args.args]
+        env = {names[0]: SELF, opar: Sym(opar)}
+        ctx.unfolding.append((pl.qualname, "__add__"))
+        outs = fr.run_function(ad, env, p0)
+        ctx.unfolding.pop()
+        n_paths += len(outs)
+        want = expected(kind, n)
+        sub = {}
+        if kind == "chain":
+            nodes = chain(n)
+            for k in range(1, n):
+                sub[nodes[k]] = [f"attr:tail({o})" for o in reversed(nodes[k:])]
+        label = kind if kind != "chain" else f"a pipeline of {n} step{'s' if n > 1 else ''}"
+        if not outs:
             ok = False
-            d = f"under {conds} returns {rk[:100]}"
-    ok = ok and seen == {"step", "empty", "single", "many", "callable"}
+            d = d or f"right operand {label}: no path"
+        for p in outs:
+            if p.status != "ret":
+                ok = False
+                d = d or f"right operand {label}: a path ends in {p.status} ({p.exc[0] if p.exc else ''})"
+                continue
+            got = flatten(p.ret, sub)
+            if got != want:
+                ok = False
+                d = d or f"right operand {label}: returns {p.ret.key()[:110]} = steps {got}, expected {want}"
+    res.count("paths", n_paths)
     res.add("labrea.pipeline.Pipeline.__add__:right operand's steps appended after self, in order", ok, f, ad.lineno,
-            d or f"cases {sorted(seen)}: Pipeline(other, self) | self | Pipeline(other.tail, self) | (self + other.rest) + other.tail | Pipeline(PipelineStep(ensure(other)), self)", nec)
+            d or f"{len(shapes)} shapes of the right operand (step, callable, empty, 1-3 steps), {n_paths} paths: the result's steps are self's then other's, in order", nec)
     # Pipeline.__init__ drops an empty rest; empty means Identity tail and no rest
     init = pl.methods.get("__init__")
     ok = init is not None
